@@ -5,7 +5,7 @@ CAND = "/verif/work/cand"; RES = "/verif/work/seed_results"; OUT = "/verif/seede
 props = {json.loads(l)["id"]: json.loads(l) for l in open("/verif/properties.jsonl")}
 rows = []
 for p in sorted(os.listdir(CAND)):
-    for k in range(1, 13):
+    for k in range(1, 40):
         if not os.path.exists(f"{CAND}/{p}/m{k}.diff"):
             continue
         sid = f"{p}-m{k}"
